@@ -2,6 +2,7 @@ package symgo
 
 import (
 	"fmt"
+	"os"
 	"strings"
 
 	"golang.org/x/tools/go/ssa"
@@ -59,6 +60,10 @@ func Rune(name string) rune     { return rune(uint32(in(name))) }
 func Byte(name string) byte     { return byte(in(name)) }
 func Bool(name string) bool     { return in(name) != 0 }
 func Symbolic() bool            { return false }
+
+// HostVar: under symgo the value most recently handed to the template engine
+// under that name (jet.VarMap.Set); natively nil (the real engine renders).
+func HostVar(name string) any { return nil }
 
 // Twin runs two instances. Under symgo: one after the other, each under a
 // memory monitor that records every cell read and written. Natively: on two
@@ -244,6 +249,13 @@ func init() {
 				for c := range in.mons[k].writes {
 					if in.globalCells[c] {
 						n++
+						if os.Getenv("SYMGO_DEBUG") != "" {
+							if p, ok := c.(*Value); ok {
+								fmt.Fprintf(os.Stderr, "[monitor] instance %d wrote a cell reachable from package-level variables; it now holds a %T\n", k, *p)
+							} else {
+								fmt.Fprintf(os.Stderr, "[monitor] instance %d wrote %T reachable from package-level variables\n", k, c)
+							}
+						}
 					}
 				}
 			}
@@ -268,6 +280,13 @@ func init() {
 			return nil
 		},
 		"Symbolic": func(in *Interp, fn *ssa.Function, a []Value) Value { return mkBool(true) },
+		"HostVar": func(in *Interp, fn *ssa.Function, a []Value) Value {
+			v, ok := in.hostVars[argStr(in, a[0])]
+			if !ok {
+				return Iface{}
+			}
+			return v
+		},
 		"Concretize": func(in *Interp, fn *ssa.Function, a []Value) Value {
 			i := a[0].(Int)
 			if i.T == nil {
